@@ -41,6 +41,17 @@ AT_LIMIT = {
 }
 
 
+# local identifiers per trigger that no rule's documentation says it inspects
+RENAMES = {
+    "nest.py": (("i", "idx"), ("b", "bound"), ("fh", "handle")), "nest.ts": (("i", "idx"), ("b", "bound")), "nest.js": (("i", "idx"), ("b", "bound")),
+    "nest.rs": (("i", "idx"), ("b", "bound")), "magic.py": (("q", "quantity"),), "magic.ts": (("q", "quantity"),), "magic.js": (("q", "quantity"),),
+    "magic.rs": (("q", "quantity"),), "printy.py": (("x", "value"),), "printy.ts": (("x", "value"),), "printy.js": (("x", "value"),),
+    "unwrap.rs": (("v", "parsed"), ("s", "text")), "cloney.rs": (("it", "entry"), ("out", "result")), "blocking.rs": (("s", "body"),),
+    "lbyl.py": (("d", "mapping"), ("k", "key")), "concat.py": (("it", "piece"),), "regexloop.py": (("it", "entry"), ("out", "result")),
+    "pipeline.py": (("item", "entry"), ("out", "kept")), "srp-at-loc-limit.py": (), "cqs.py": (("value", "fetched"),),
+}
+
+
 def _lint(files, config=None):
     """files: dict name -> bytes/str. Returns violations."""
     import src.linter_config.ignore as ign
@@ -60,6 +71,12 @@ def _lint(files, config=None):
     finally:
         for p in paths:
             p.unlink()
+
+
+def _norm_names(msg, table):
+    for old, neu in table or ():
+        msg = re.sub(r"\b%s\b" % re.escape(neu), old, msg)
+    return msg
 
 
 def _norm_msg(msg):
@@ -100,7 +117,7 @@ def h_edits(ctx):
     n = len(lines)
     cm = "#" if lang == "python" else "//"
     edit = ctx.pick("edit", ("insert-blank", "insert-indented-blank", "insert-comment", "trailing-whitespace", "reindent-x2", "crlf", "bom",
-                             "append-code", "two-edits"))
+                             "append-code", "two-edits", "rename-locals"))
     base = _lint(files, config)
     shift, with_col = None, True
     new = None
@@ -132,6 +149,17 @@ def h_edits(ctx):
     elif edit == "bom":
         new = "﻿" + text
         with_col = False     # column of a finding on line 1 may legitimately move by the BOM
+    elif edit == "rename-locals":
+        # consistent renaming of local variables / parameters (never of functions, classes, or UPPER_CASE constants)
+        table = RENAMES.get(tname)
+        if not table:
+            ctx.assume(False)
+        new = text
+        for old, neu in table:
+            new = re.sub(r"\b%s\b" % re.escape(old), neu, new)
+        if new == text:
+            ctx.assume(False)
+        with_col = False       # longer names legitimately move columns
     elif edit == "append-code":
         tail = {"python": ["", "", "def unrelated_tail(value):", "    return value"],
                 "typescript": ["", "function unrelatedTail(value: string): string {", "  return value;", "}"],
@@ -143,6 +171,8 @@ def h_edits(ctx):
     after = _lint(edited, config)
     kb = _keys(base, main, None, with_col)
     ka = _keys(after, main, shift, with_col)
+    if edit == "rename-locals":       # messages that quote source text quote the new names
+        ka = Counter({(k[0], k[1], k[2], k[3], _norm_names(k[4], RENAMES.get(tname))): c for k, c in ka.items()})
     ctx.note("trigger", tname)
     ctx.note("edit", edit)
     ctx.cover("has-findings" if kb else "no-findings")
@@ -157,7 +187,7 @@ ASSUMPTIONS = (
     "inserted lines sit between statements (indented like the following line); no edit is made inside a multi-line string",
     "file-header and lazy-ignores findings are left out (header-sensitive / about comments themselves)",
     "columns are not compared for re-indentation and BOM edits",
-    "identifier renaming is not explored (the property restricts it to rules that do not inspect names)",
+    "identifier renaming: local variables and parameters of each trigger are renamed by a fixed table (functions, classes and UPPER_CASE constants are never renamed)",
 )
 
 
